@@ -244,4 +244,11 @@ def State.commit (s : State) (i : Nat) : State := s.commitF (i + 1) i
 
 def State.flushStep (s : State) : State := { s with mgr := s.mgr.flushStep }
 
+/-- node restart: NewManager over the same database.  The database content persists; locators,
+    cached lists, maxTSInDB and the flush queue start empty; every tracker of the old manager is
+    gone (handles of the driver keep counting, see Driver/C11).  The ghost `log` restarts too:
+    the theorems speak about lists finalized since the last restart (lists finalized before it
+    are known to the new manager only through the database — differential testing only). -/
+def State.restart (s : State) : State := { mgr := { db := s.mgr.db }, trackers := [] }
+
 end Goloop.C11
